@@ -22,6 +22,6 @@ Deliverables, written to /tmp/seedout/${id}_$n/ (create it):
  - patch.diff : \`git -C $wt diff\` of your source change only (must apply cleanly to /repo HEAD with \`git apply\`); do NOT include the demonstration in the patch.
  - demo_test.go : the demonstration test; state at the top in a comment which package directory (relative to repo root) it must be copied into and the \`go test -run\` command.
  - meta.json : {"property": "$id", "summary": "<what was changed, one or two sentences>", "needs_to_manifest": "<what specific input/schedule/sequence is needed>", "files_changed": [...], "demo_pkg_dir": "<dir>", "demo_run": "<go test command>", "ran": ["<commands you ran and their outcome>"]}
-Before finishing, verify yourself: (a) with the patch: build+vet ok, full suite passes, demo fails; (b) without the patch (\`git -C $wt stash\` or checkout): demo passes. Then remove the worktree and its build output: \`git -C /repo worktree remove --force $wt\`.
+Before finishing, verify yourself: (a) with the patch: build+vet ok, full suite passes, demo fails; (b) without the patch (save it with \`git -C $wt diff > /tmp/seedout/${id}_$n/patch.diff\`, then \`git -C $wt checkout -- .\`; re-apply with \`git -C $wt apply\`; do NOT use git stash - the stash is shared between worktrees and other agents are working in parallel): demo passes. Then remove the worktree and its build output: \`git -C /repo worktree remove --force $wt\`.
 If your first idea turns out to be caught by existing tests, try a different one (up to about four attempts). Your final message should be a 3-line summary: what was changed, where, and whether all verifications succeeded.
 P
